@@ -834,6 +834,19 @@ def documented_cleanups_level(ctx):
         ("a vCard 4.0 PHOTO given as a data URI stays", True,
          ["BEGIN:VCARD", "VERSION:4.0", "UID:cu", "FN:Clean Up", "N:Up;Clean;;;", "PHOTO:data:image/jpeg;base64," + photo[:120], "END:VCARD"], None),
         ("a URL with a comma stays", True, card(["URL:http://example.org/map?ll=48.1,11.5"]), None),
+        ("two nicknames stay two", True, card(["NICKNAME:Johnny,JD"]), None),
+        ("a SOURCE with commas stays", True, card(["SOURCE:ldap://ldap.example.com/cn=Babs%20Jensen,%20o=Babsco,%20c=US"]), None),
+        ("the geo: URI of an Apple structured location stays", False,
+         ev_head + ["DTSTART:20240102T100000Z", "LOCATION:Marienplatz", "X-APPLE-STRUCTURED-LOCATION;VALUE=URI;X-TITLE=Marienplatz:geo:48.137154,11.576124", "SUMMARY:s"] + ev_tail, None),
+        ("a CONFERENCE link with a comma stays", False,
+         ev_head + ["DTSTART:20240102T100000Z", "CONFERENCE;VALUE=URI;LABEL=Call:https://chat.example.com/audio?id=1,2", "SUMMARY:s"] + ev_tail, None),
+        ("an ATTACH link with a comma stays", False,
+         ev_head + ["DTSTART:20240102T100000Z", "ATTACH:http://example.org/a,b;c.pdf", "URL:http://example.org/map?ll=48.1,11.5;z=3", "SUMMARY:s"] + ev_tail, None),
+        # structured values of vCard 4.0 properties (finding F34: the separator comes back escaped, i.e. as part of the first component)
+        ("a vCard 4.0 GENDER with identity text stays", True,
+         ["BEGIN:VCARD", "VERSION:4.0", "UID:cu", "FN:Clean Up", "N:Up;Clean;;;", "GENDER:M;male", "END:VCARD"], None),
+        ("a vCard 4.0 CLIENTPIDMAP stays", True,
+         ["BEGIN:VCARD", "VERSION:4.0", "UID:cu", "FN:Clean Up", "N:Up;Clean;;;", "CLIENTPIDMAP:1;urn:uuid:3df403f4-5924-4bb7-b077-3c711d9eb34b", "END:VCARD"], None),
     ]
     for what, book, up_lines, want_lines in cases:
         want_lines = want_lines or up_lines
@@ -861,10 +874,15 @@ def documented_cleanups_level(ctx):
             diff = sorted(set(flatten(parse_content(served))) ^ set(flatten(parse_content("\r\n".join(want_lines) + "\r\n"))))
             # F33: vobject keeps only what precedes the first unescaped comma of a vCard value it takes for text (PHOTO / LOGO / KEY / URL ...)
             cut = [d for d in diff if d[1] not in IGNORED_PROPS]
-            f33 = book and cut and all(d[1] in ("PHOTO", "LOGO", "KEY", "URL", "SOUND") for d in cut) and any("," in str(d[3]) for d in cut)
+            f33 = cut and all(d[1] in (("PHOTO", "LOGO", "KEY", "URL", "SOUND", "SOURCE", "NICKNAME") if book else
+                                       ("X-APPLE-STRUCTURED-LOCATION", "CONFERENCE", "IMAGE")) for d in cut) and any("," in str(d[3]) for d in cut)
+            # F34: ";" inside the value of a vCard 4.0 property vobject does not know as structured comes back as "\;"
+            vals = sorted(str(d[3]) for d in cut)
+            f34 = book and len(cut) == 2 and cut[0][1] == cut[1][1] and cut[0][1] in ("GENDER", "CLIENTPIDMAP", "TEL") and \
+                vals[0].replace("\\;", ";") == vals[1].replace("\\;", ";")
             ctx.violation("clean-up %r: the served object is not the upload with exactly that edit; differing lines: %s"
-                          % (what, [(d[0], d[1], str(d[3])[:60]) for d in cut][:6]), case, finding="F33" if f33 else None)
-            if f33:
+                          % (what, [(d[0], d[1], str(d[3])[:60]) for d in cut][:6]), case, finding="F33" if f33 else "F34" if f34 else None)
+            if f33 or f34:
                 continue
         if st3 not in (201, 204) or again != served:
             ctx.violation("clean-up %r: the served object is not a fixed point of re-upload" % what, case)
